@@ -854,6 +854,61 @@ def registered_walks_at_every_depth(col):
         col.violation('C14/wildcard-ignores-the-registry-in-force:below-the-first-level', "Delete('**.mark') through the Glommer: %r, still marked %r" % (got if not got.ok else 'returned', sorted(marks)), None)
 
 
+def nested_paths_and_container_arguments_after_wildcards(col):
+    """(1) the Path spelling includes Paths built from Paths: a Path holding wildcard steps, given as a later part of another Path, keeps
+    them.  (2) "steps after a wildcard are applied to each entry independently": a step whose argument is a list / dict / tuple literal
+    (with T leaves or empty) gives every entry what the same step gives that entry alone"""
+    from glom import Assign, Delete
+    import copy
+    target = {'a': [{'k': 1}, {'k': 2}], 'b': {'x': {'k': 3}, 'y': [{'k': 4}]}}
+    star_k, starstar_k = Path(T.__star__(), 'k'), Path(T.__starstar__(), 'k')
+    reads = [
+        ("Path(Path('a'), Path.from_text('*.k'))", lambda: Path(Path('a'), Path.from_text('*.k')), [1, 2]),
+        ("Path('a', Path(T.*, 'k'))", lambda: Path('a', star_k), [1, 2]), ("Path(Path('b'), Path(T.**, 'k'))", lambda: Path(Path('b'), starstar_k), [3, 4]),
+        ("Path('b', Path.from_text('**'), 'k')", lambda: Path('b', Path.from_text('**'), 'k'), [3, 4]), ("Path(Path(Path('a'), Path(T.*)), 'k')", lambda: Path(Path(Path('a'), Path(T.__star__())), 'k'), [1, 2]),
+        ("Path('a', Path(T.*), Path('k'))", lambda: Path('a', Path(T.__star__()), Path('k')), [1, 2]),
+    ]
+    for desc, mk, want in reads:
+        got = call(G, copy.deepcopy(target), mk())
+        col.case(('nested-path-spelling', desc), True)
+        col.count('wildcard_evaluations')
+        if not (got.ok and got.value == want):
+            col.violation('C14/wildcard-step-lost-in-a-nested-path', 'glom(.., %s): %r, expected %r' % (desc, got, want), None)
+    t = copy.deepcopy(target)
+    got = call(G, t, Assign(Path('a', star_k), 9))
+    col.count('wildcard_mutations')
+    if not got.ok or [r['k'] for r in t['a']] != [9, 9]:
+        col.violation('C14/wildcard-step-lost-in-a-nested-path', "Assign(Path('a', Path(T.*, 'k')), 9): %r ; rows now %r" % (got if not got.ok else 'returned', t['a']), None)
+    got = call(G, t, Delete(Path(Path('a'), Path.from_text('*.k'))))
+    col.count('wildcard_mutations')
+    if not got.ok or any('k' in r for r in t['a']):
+        col.violation('C14/wildcard-step-lost-in-a-nested-path', "Delete(Path(Path('a'), Path.from_text('*.k'))): %r ; rows now %r" % (got if not got.ok else 'returned', t['a']), None)
+
+    rows = lambda: [{'k': 1, 'tags': ['x']}, {'k': 2}, {'z': 0}, {'k': 3}]
+    steps = [
+        ("get('missing', [T['k']])", lambda t: t.get('missing', [T['k']])), ("get('missing', {'v': T['k']})", lambda t: t.get('missing', {'v': T['k']})),
+        ("get('missing', (T['k'], [T['k']]))", lambda t: t.get('missing', (T['k'], [T['k']]))), ("setdefault('tags', [])", lambda t: t.setdefault('tags', [])),
+        ("get('missing', [])", lambda t: t.get('missing', [])), ("get('missing', {})", lambda t: t.get('missing', {})),
+        ("get('missing', [[T['k']], {'n': [T['k']]}])", lambda t: t.get('missing', [[T['k']], {'n': [T['k']]}])),
+    ]
+    for desc, step in steps:
+        for wname, wild, entries_of in (('*', lambda: T.__star__(), lambda t: list(t)), ("['rows'].*", lambda: T['rows'].__star__(), lambda t: list(t))):
+            t1, t2 = rows(), rows()
+            got = call(G, t1 if wname == '*' else {'rows': t1}, step(wild()))
+            alone = [call(G, e, step(T)) for e in entries_of(t2)]
+            want = [o.value for o in alone if o.ok]
+            col.case(('container-argument-after-wildcard', desc, wname), True)
+            col.count('wildcard_evaluations')
+            ok = got.ok and got.value == want
+            if ok and 'setdefault' in desc or ok and desc.endswith('[])') or ok and desc.endswith('{})'):
+                # separate entries get separate containers
+                fresh = [x for x in got.value if isinstance(x, (list, dict)) and not x]
+                ok = len({id(x) for x in fresh}) == len(fresh)
+            if not ok:
+                col.violation('C14/entries-after-a-wildcard-not-independent:container-argument', 'T.%s.%s over %r: %r ; the step applied to each entry alone gives %r'
+                              % (wname, desc, rows(), got, want), None)
+
+
 def wildcard_mutation_over_mixed_kinds(col):
     """Assign / Delete through a wildcard act on EVERY entry with the operation of that entry's own kind (dict item, attribute,
     integer-coerced list index), in string, Path and T spelling"""
@@ -908,6 +963,7 @@ def run(ctx):
             mutate_case(col, rng)
         if ctx.shard == 0:
             registered_walks_at_every_depth(col)
+            nested_paths_and_container_arguments_after_wildcards(col)
             wildcards_follow_the_registry_in_force(col)
             wildcard_mutation_over_mixed_kinds(col)
             after_path_cache_overflow(col, rng)
